@@ -112,6 +112,10 @@ where
     let _enter = span.enter();
 
     let partition = crate::as_atomic(partition);
+    #[cfg(coupe_verif)]
+    let partition = crate::verif_hooks::hooked_parts(partition);
+    #[cfg(coupe_verif)]
+    let locks = crate::verif_hooks::hooked_locks(&locks);
 
     // This function makes move attempts until either
     // - `cut` is empty, or
@@ -233,6 +237,12 @@ where
     let mut thread_max_pws = vec![W::zero(); part_count];
     loop {
         metadata.pass_count += 1;
+        #[cfg(coupe_verif)]
+        crate::verif_hooks::event(crate::verif_hooks::Ev::PassBegin {
+            pass: metadata.pass_count,
+            thread_count,
+            items_per_thread,
+        });
 
         // `part_weights` changes at the end of each pass, so `thread_max_pws`
         // needs to be updated here.
@@ -247,6 +257,8 @@ where
             .par_chunks(items_per_thread)
             .enumerate()
             .map(|(chunk_idx, chunk)| {
+                #[cfg(coupe_verif)]
+                crate::verif_hooks::event(crate::verif_hooks::Ev::TaskBegin(chunk_idx));
                 let mut cut = Vec::new();
                 let mut part_weights = part_weights.clone();
                 let mut metadata = Metadata::default();
@@ -263,6 +275,8 @@ where
                         // blank
                     }
                 }
+                #[cfg(coupe_verif)]
+                crate::verif_hooks::event(crate::verif_hooks::Ev::TaskEnd(chunk_idx));
                 (metadata, part_weights)
             })
             .reduce(
